@@ -29,8 +29,8 @@ type SpecCtx struct {
 	local func(c *SpecCtx, name string) (SpecVal, bool, error)
 	// preLocal resolves locals inside pre(...): loop-carried variables have their value at loop entry
 	preLocal func(c *SpecCtx, name string) (SpecVal, bool, error)
-	depth int
-	inOld bool
+	depth    int
+	inOld    bool
 }
 
 func (c *SpecCtx) with(vars map[string]SpecVal) *SpecCtx {
